@@ -10,7 +10,6 @@
 package main
 
 import (
-	"crypto/ecdsa"
 	"crypto/x509"
 	"encoding/hex"
 	"encoding/json"
@@ -18,7 +17,6 @@ import (
 	"flag"
 	"fmt"
 	"hash/fnv"
-	"math/big"
 	"os"
 	"path/filepath"
 
@@ -59,36 +57,9 @@ func main() {
 
 	for _, cn := range []string{"p256", "p384", "p521"} {
 		c := vkeys.Curve(cn)
-		w := vkeys.CoordSize(c)
-		lz := func(v *big.Int) bool {
-			if cn == "p521" {
-				return len(v.Bytes()) <= 64
-			}
-			return len(v.Bytes()) < w
-		}
-		for _, variant := range []string{"a", "b", "lzx", "lzy", "lzd"} {
+		for _, variant := range vkeys.ECVariants {
 			name := cn + "-" + variant
-			r := stream(name)
-			var k *ecdsa.PrivateKey
-			tries := 0
-			for {
-				tries++
-				k = vkeys.GenEC(c, r)
-				ok := true
-				switch variant {
-				case "a", "b": // ordinary keys: full-width everywhere, to keep the classes apart
-					ok = len(k.X.Bytes()) == w && len(k.Y.Bytes()) == w && len(k.D.Bytes()) == w
-				case "lzx":
-					ok = lz(k.X)
-				case "lzy":
-					ok = lz(k.Y)
-				case "lzd":
-					ok = lz(k.D)
-				}
-				if ok {
-					break
-				}
-			}
+			k, tries := vkeys.SearchEC(cn, variant, stream(name))
 			der, err := x509.MarshalECPrivateKey(k)
 			if err != nil {
 				panic(err)
